@@ -109,7 +109,7 @@ class Check:
                 self.pid, v["rule"], v["function"], v["key"], k.get("what", v["message"]), v["where"]))
         paths = []
         noev = bool(os.environ.get("VERIF_NO_EVIDENCE"))
-        vdir = VIOL_DIR if not noev else os.path.join(VERIF, ".work", "scratch-violations")
+        vdir = VIOL_DIR if not noev else os.path.join(os.environ.get("VERIF_WORK") or os.path.join(VERIF, ".work"), "scratch-violations")
         if new:
             os.makedirs(vdir, exist_ok=True)
         for i, v in enumerate(new):
